@@ -116,7 +116,7 @@ def main(*args: str, stdout=sys.stdout, stderr=sys.stderr):
 
 
 def solve(stdout, stderr, parser: ArgumentParser, args: Namespace):
-    files = read_files(args.files)
+    files = read_files(args.files, stderr)
     ensure_grammar_present(stderr, parser, args, files)
 
     command = args.command
@@ -239,7 +239,7 @@ def fuzz(_, stderr, parser: ArgumentParser, args: Namespace):
     stderr_ending = "_stderr.txt"
     status_ending = "_status.txt"
 
-    files = read_files(args.files)
+    files = read_files(args.files, stderr)
     ensure_grammar_present(stderr, parser, args, files)
 
     command = args.command
@@ -411,7 +411,7 @@ def parse(stdout, stderr, parser: ArgumentParser, args: Namespace):
 
 
 def repair(stdout, stderr, parser: ArgumentParser, args: Namespace):
-    files = read_files(args.files)
+    files = read_files(args.files, stderr)
     ensure_grammar_present(stderr, parser, args, files)
     ensure_constraint_present(stderr, parser, args, files)
     command = args.command
@@ -464,7 +464,7 @@ def repair(stdout, stderr, parser: ArgumentParser, args: Namespace):
 
 
 def mutate(stdout, stderr, parser: ArgumentParser, args: Namespace):
-    files = read_files(args.files)
+    files = read_files(args.files, stderr)
     ensure_grammar_present(stderr, parser, args, files)
     ensure_constraint_present(stderr, parser, args, files)
     command = args.command
@@ -516,7 +516,7 @@ def mutate(stdout, stderr, parser: ArgumentParser, args: Namespace):
 def do_check(
     stdout, stderr, parser: ArgumentParser, args: Namespace
 ) -> Tuple[int, str, Maybe[DerivationTree]]:
-    files = read_files(args.files)
+    files = read_files(args.files, stderr)
     ensure_grammar_present(stderr, parser, args, files)
     ensure_constraint_present(stderr, parser, args, files)
     command = args.command
@@ -651,8 +651,12 @@ The ISLa command line interface.""",
     return parser
 
 
-def read_files(files: Iterable[TextIOWrapper]) -> Dict[str, str]:
-    return {io_wrapper.name: io_wrapper.read() for io_wrapper in files}
+def read_files(files: Iterable[TextIOWrapper], stderr=None) -> Dict[str, str]:
+    try:
+        return {io_wrapper.name: io_wrapper.read() for io_wrapper in files}
+    except UnicodeDecodeError as err:
+        print(f"isla: error: could not read input file: {err}", file=stderr or sys.stderr)
+        sys.exit(DATA_FORMAT_ERROR)
 
 
 def ensure_grammar_present(
